@@ -481,6 +481,65 @@ func main() {
 		complete = false
 		r.Cap(fmt.Sprintf("part (b'): time box hit after %d of %d probes", invDone, len(invJobs)))
 	}
+	// ------------------------------------------------------------- part (b''): a block that fails on the
+	// reorganisation path while TWO of its child branches hold block data.  Tree:
+	// 1<-2 main; 3 (coinbase overpays) with children 4<-5 and 6; 7 below 6.  Every
+	// parents-first order of the six block deliveries (the failure happens when the
+	// branch through 5 overtakes the main chain), then the header of node 7: every
+	// descendant of the failed block is part of an invalid branch.
+	{
+		parents := []int{-1, 0, 1, 0, 3, 4, 3, 6}
+		const bad = 3
+		var orders [][]int
+		var rec func(done []int, used uint)
+		rec = func(done []int, used uint) {
+			if len(done) == 6 {
+				orders = append(orders, append([]int(nil), done...))
+				return
+			}
+			for i := 1; i <= 6; i++ {
+				if used&(1<<uint(i)) != 0 || (parents[i] != 0 && used&(1<<uint(parents[i])) == 0) {
+					continue
+				}
+				rec(append(done, i), used|1<<uint(i))
+			}
+		}
+		rec(nil, 0)
+		var sibDone int64
+		ev.Par(len(orders), runtime.NumCPU(), func(oi int) {
+			if r.Expired() {
+				return
+			}
+			w := newBWorld(parents, bad)
+			s := w.newSys()
+			defer s.c.Destroy()
+			var hist []int
+			step := func(e int) {
+				hist = append(hist, e)
+				s.apply(e)
+				for _, f := range s.check(&counts) {
+					kv := strings.SplitN(f, "|", 2)
+					names := histNames(hist)
+					col.add(kv[0], fmt.Sprintf("07/%02d/%s", len(hist), strings.Join(names, ",")),
+						fmt.Sprintf("tree parents=%v invalid node=%d history=%s: %s", parents, bad, strings.Join(names, ","), kv[1]),
+						replayObj{Part: "b", Parents: parents, Invalid: bad, Hist: names, Fn: kv[0]})
+				}
+			}
+			for _, i := range orders[oi] {
+				step(2*(i-1) + 1)
+			}
+			step(2 * (7 - 1))
+			r.Nontrivial(fmt.Sprintf("bsib|%v", orders[oi]))
+			atomic.AddInt64(&sibDone, 1)
+		})
+		r.Eval(int(sibDone) * 7)
+		r.Trans(int(sibDone) * 7)
+		r.Add("b_sibling_branch_histories", sibDone)
+		if int(sibDone) != len(orders) {
+			complete = false
+			r.Cap(fmt.Sprintf("part (b''): time box hit after %d of %d histories", sibDone, len(orders)))
+		}
+	}
 	phase["b_inv"] = time.Since(t0).Seconds()
 	r.Set("phase_wall_seconds", phase)
 	r.State(bStates)
@@ -506,6 +565,7 @@ func main() {
 		"b_events":           "H_i = ProcessBlockHeader(header_i, BFNone, false), B_i = ProcessBlock(block_i, BFNone); H_i enabled once parent's header or block was delivered and H_i was not (also after the node's own block); B_i enabled once parent's block was delivered",
 		"b_mixed_difficulty": "3 worlds on a minimum-difficulty network: light branch of 2/3/3 blocks (1 unit of work each) and heavy branch of 1/1/2 blocks (256 units each) from a genesis block at the heavy difficulty",
 		"b_inv":              "part (b'): every tree shape with <= K blocks x every knowledge vector (none / header / block per node, parents first) x {headers after the blocks, before the blocks} x every known node x: InvalidateBlock(x), then the header of every unknown node with a known parent (refused iff it descends from x), ReconsiderBlock(x), the refused headers again (accepted)",
+		"b_sibling":          "part (b''): tree 1<-2; 3 (fails at connect) <- {4<-5, 6<-7}: every parents-first order of the six block deliveries, then the header of node 7, all part (b) oracles after every step",
 		"b_invalid":          "one node whose coinbase overpays by 1 satoshi (found at connect time only), every node up to tree symmetry, or none",
 	})
 
